@@ -12,10 +12,10 @@ ls -d /verif/seeded/*/ | while read d; do
   echo "$n $ids" | sed "s| *$||"
 done > /tmp/reeval.list
 run_one() { n=$1; shift; slot=$1; shift
-  ISO_TAG=-$slot ISO_SRC=/tmp/iso-snap /verif/tools/iso_check.sh /verif/seeded/$n/patch.diff "$@" > /tmp/reeval-$n.txt 2>&1
+  ISO_TAG=-re$slot ISO_SRC=/tmp/iso-snap /verif/tools/iso_check.sh /verif/seeded/$n/patch.diff "$@" > /tmp/reeval-$n.txt 2>&1
   cp /tmp/reeval-$n.txt /verif/seeded/$n/checks.txt
   grep -E "^DETECTED|^missed|does not apply" /tmp/reeval-$n.txt | cut -c1-120 | sed "s/^/$n: /"; rm -f /tmp/reeval-$n.txt; }
 export -f run_one
 cat /tmp/reeval.list | xargs -P $J -L 1 bash -c 'slot=$$; run_one "$0" $slot "$@"'
-for t in /tmp/iso-verif-* ; do rm -rf "$t"; done
+for t in /tmp/iso-verif-re* ; do rm -rf "$t"; done
 git -C /repo worktree prune
